@@ -42,7 +42,8 @@ type TRule struct {
 type TProg struct {
 	Rules      []TRule `json:"rules"`
 	FuncsFirst bool    `json:"funcs_first,omitempty"`
-	Semis      bool    `json:"semis,omitempty"` // separate simple statements with ';' where allowed
+	ViaFn      int     `json:"via_fn,omitempty"` // 0: $file/$index named directly in the rule bodies; 1: read inside functions; 2: inside match case bodies
+	Semis      bool    `json:"semis,omitempty"`  // separate simple statements with ';' where allowed
 }
 
 func (p *Pat) render() string {
@@ -122,6 +123,8 @@ const traceFuncs = `function show(v) {
   if (v is object) { return "O" + v.id }
   return v
 }
+function fl() { return $file }
+function ix() { return $index }
 function sigN() { next }
 function sigX() { exit }
 function sigN2() { for (sr in [1]) { sigN() } }
@@ -164,15 +167,22 @@ func (p *TProg) Render() string {
 		if r.Sig != nil && r.Sig.Pos == "before" {
 			stmts = append(stmts, r.Sig.render(r.Tag))
 		}
+		fileX, indexX := "$file", "$index"
+		switch p.ViaFn {
+		case 1:
+			fileX, indexX = "fl()", "ix()"
+		case 2:
+			fileX, indexX = "match (1) { 1 => $file }", "match (1) { mz => $index }"
+		}
 		switch r.Kind {
 		case "BEGIN", "END":
 			stmts = append(stmts, fmt.Sprintf("print %q, show($)", r.Tag))
 		case "BEGINFILE":
-			stmts = append(stmts, fmt.Sprintf("print %q, $file, show($)", r.Tag))
+			stmts = append(stmts, fmt.Sprintf("print %q, %s, show($)", r.Tag, fileX))
 		case "ENDFILE":
-			stmts = append(stmts, fmt.Sprintf("print %q, $file", r.Tag))
+			stmts = append(stmts, fmt.Sprintf("print %q, %s", r.Tag, fileX))
 		case "PATTERN":
-			stmts = append(stmts, fmt.Sprintf("if (isarr) { print %q, $file, $index, show($) } else { print %q, $file, \"-\", show($) }", r.Tag, r.Tag))
+			stmts = append(stmts, fmt.Sprintf("if (isarr) { print %q, %s, %s, show($) } else { print %q, %s, \"-\", show($) }", r.Tag, fileX, indexX, r.Tag, fileX))
 		}
 		if r.Sig != nil && r.Sig.Pos == "after" {
 			stmts = append(stmts, r.Sig.render(r.Tag))
